@@ -8,7 +8,11 @@ def examplesWF (d : Doc) : Bool := (exampleEntries d).all exampleShapeOK
 the code visits (none when examples validation is off or no schema is given) are well-formed. It is not an
 exclusion: in an accepted document, and in a conforming one, it holds at every node (C04Reach.lean). -/
 def examplesWFor (o : Opts) (d : Doc) : Bool :=
-  o.exDisabled || !d.attrs.flag "hasSchema" || !exampleKinds.contains d.kind || examplesWF d
+  o.exDisabled || !d.attrs.flag "hasSchema" || !exampleKinds.contains d.kind || d.attrs.flag "hasExample" || examplesWF d
+
+/-- without an `examples` field there is no example object to read -/
+theorem examplesWF_of_noflag (d : Doc) (h : d.attrs.flag "hasExamples" = false) : examplesWF d = true := by
+  simp [examplesWF, exampleEntries, h]
 
 /-- on well-formed example objects the values the code reads are the values the examples give -/
 theorem examplesVals_eq_given (d : Doc) (h : examplesWF d = true) : examplesVals d = examplesValsGiven d := by
@@ -35,39 +39,55 @@ theorem examplesVals_eq_given (d : Doc) (h : examplesWF d = true) : examplesVals
 def exampleClause (o : Opts) (d : Doc) : Bool := (exampleOK d && examplesGivenOK d) || o.exDisabled
 
 theorem exampleValues_eq (T : Table) (o : Opts) (d : Doc)
-    (h1 : hasCheck T o d.kind "example" = !o.exDisabled) (h2 : hasCheck T o d.kind "examples" = !o.exDisabled)
-    (hwf : o.exDisabled = true ∨ examplesWF d = true) :
+    (h1 : hasCheck T o d.attrs d.kind "example" = !o.exDisabled)
+    (h2 : hasCheck T o d.attrs d.kind "examples" = (!o.exDisabled && !(d.kind == .parameter && d.attrs.flag "hasExample")))
+    (hboth : (d.attrs.flag "hasExample" && d.attrs.flag "hasExamples") = false)
+    (hwf : o.exDisabled = true ∨ d.attrs.flag "hasExample" = true ∨ examplesWF d = true) :
     exampleValuesOK T o d = exampleClause o d := by
   unfold exampleValuesOK exampleClause
   rw [h1, h2]
-  rcases hwf with hd | hw
+  have hw : o.exDisabled = true ∨ examplesWF d = true := by
+    rcases hwf with h | h | h
+    · exact Or.inl h
+    · refine Or.inr (examplesWF_of_noflag d ?_)
+      simpa [h] using hboth
+    · exact Or.inr h
+  rcases hw with hd | hw
   · simp [hd]
-  · have : examplesOK d = examplesGivenOK d := by
+  · have he : examplesOK d = examplesGivenOK d := by
       unfold examplesOK examplesGivenOK
       rw [examplesVals_eq_given d hw]
-    rw [this]
-    cases o.exDisabled <;> simp
+    rw [he]
+    cases hx : d.attrs.flag "hasExample" with
+    | false => cases o.exDisabled <;> simp
+    | true =>
+      -- the `examples` check of a parameter is skipped: there is no `examples` field then
+      have hn : d.attrs.flag "hasExamples" = false := by simpa [hx] using hboth
+      have : examplesGivenOK d = true := by simp [examplesGivenOK, examplesValsGiven, exampleEntries, hn]
+      rw [this]
+      cases o.exDisabled <;> cases (d.kind == Kind.parameter) <;> simp
 
-theorem exampleChecks (T : Table) (o : Opts) (k : Kind) (hT : TableOK T = true) (hk : k ∈ exampleKinds) :
-    hasCheck T o k "example" = !o.exDisabled ∧ hasCheck T o k "examples" = !o.exDisabled := by
+theorem exampleChecks (T : Table) (o : Opts) (a : Attrs) (k : Kind) (hT : TableOK T = true) (hk : k ∈ exampleKinds) :
+    hasCheck T o a k "example" = !o.exDisabled ∧
+    hasCheck T o a k "examples" = (!o.exDisabled && !(k == .parameter && a.flag "hasExample")) := by
   have hf := (tableFacts T hT).ex k hk
-  have h1 := hasCheck_single T o k "example" _ hf.1
-  have h2 := hasCheck_single T o k "examples" _ hf.2.1
-  simp only [litHolds] at h1 h2
-  exact ⟨h1, h2⟩
+  exact ⟨anyHolds_as o a _ _ hf.1, anyHolds_as o a _ _ hf.2.1⟩
 
 theorem wf_split (o : Opts) (d : Doc) (hwf : examplesWFor o d = true) (hs : d.attrs.flag "hasSchema" = true)
     (hk : exampleKinds.contains d.kind = true) :
-    o.exDisabled = true ∨ examplesWF d = true := by
+    o.exDisabled = true ∨ d.attrs.flag "hasExample" = true ∨ examplesWF d = true := by
   unfold examplesWFor at hwf
   simp only [hs, hk, Bool.not_true, Bool.or_false, Bool.or_eq_true] at hwf
-  exact hwf
+  rcases hwf with (h | h) | h
+  · exact Or.inl h
+  · exact Or.inr (Or.inl h)
+  · exact Or.inr (Or.inr h)
 
 theorem localOK_parameter (T : Table) (o : Opts) (a : Attrs) (kids : List (String × Doc)) (vs : List Bool)
     (hT : TableOK T = true) (hwf : examplesWFor o (.node .parameter a kids) = true) :
     localOK T o (.node .parameter a kids) vs = rulesOK o (.node .parameter a kids) := by
   have hx := checkExt_eq T o (.node .parameter a kids) hT (by simp [extKinds, Doc.kind])
-  obtain ⟨h1, h2⟩ := exampleChecks T o .parameter hT (by simp [exampleKinds])
+  obtain ⟨h1, h2⟩ := exampleChecks T o a .parameter hT (by simp [exampleKinds])
   simp (disch := decide) only [localOK, rulesOK, violations, Doc.kind, Doc.attrs, parameterOKCode, exampleViols, List.all_append, all_when,
     extra_all, hx, enabled_plain]
   simp only [enabled]
@@ -87,12 +107,14 @@ theorem localOK_parameter (T : Table) (o : Opts) (a : Attrs) (kids : List (Strin
   cases hs : a.flag "hasSchema" with
   | false => simp [c1, c2, c3, c4, c5, c6]
   | true =>
-    have hv := exampleValues_eq T o (.node .parameter a kids) h1 h2 (wf_split o _ hwf hs (by simp [exampleKinds, Doc.kind]))
-    simp only [Doc.attrs, exampleClause] at hv
-    rw [hv]
     by_cases c7 : (a.flag "hasExample" && a.flag "hasExamples") = true
     · have ⟨c7a, c7b⟩ : a.flag "hasExample" = true ∧ a.flag "hasExamples" = true := by simpa using c7
       simp [c1, c2, c3, c4, c5, c6, c7a, c7b]
+    have c7' : (a.flag "hasExample" && a.flag "hasExamples") = false := by simpa using c7
+    have hv := exampleValues_eq T o (.node .parameter a kids) h1 h2 c7'
+      (wf_split o _ hwf hs (by simp [exampleKinds, Doc.kind]))
+    simp only [Doc.attrs, exampleClause] at hv
+    rw [hv]
     simp [c1, c2, c3, c4, c5, c6, c7]
     generalize extKeysOK o a.exts = X
     generalize exampleOK _ = A
